@@ -367,13 +367,23 @@ def _tile_start_ok(fn):
         c = A.strip(e["args"][0])
         if c.get("k") != "Closure" or len(c.get("inputs") or []) != 1:
             return False
-        p_ = A.binding_name(c["inputs"][0])
-        return str(txt(A.strip(c["body"]))).strip("()") in ("*%s<max_size" % p_, "max_size>*%s" % p_)
+        pin = c["inputs"][0]
+        by_ref = False
+        while isinstance(pin, dict) and pin.get("k") in ("PRef", "PReference") and pin.get("pat") is not None:
+            pin, by_ref = pin["pat"], True
+        p_ = A.binding_name(pin)
+        d_ = "" if by_ref else "*"
+        return str(txt(A.strip(c["body"]))).strip("()") in ("%s%s<max_size" % (d_, p_), "max_size>%s%s" % (d_, p_))
 
-    def cases(e):
+    def cases(e, depth=0):
         """-> (value when the position is Some(k), value when it is None) as texts over `k`"""
         e = A.strip(e)
         k = e.get("k")
+        if k == "Path" and A.ident(e) and depth < 4:
+            ls_ = [s_ for s_ in A.find(fn["body"], "Let") if A.binding_name(s_["pat"]) == A.ident(e) and s_.get("init") is not None]
+            if len(ls_) == 1:
+                return cases(ls_[0]["init"], depth + 1)
+            return None
         if k == "MethodCall" and e["method"] == "saturating_sub" and len(e["args"]) == 1 and str(txt(e["args"][0])) == "1":
             c = cases(e["recv"])
             return None if c is None else (c[0] + ".saturating_sub(1)", c[1] + ".saturating_sub(1)")
@@ -473,6 +483,13 @@ def _assembly_common(rule, fn, label, path, write_ok):
             pass
         # the guard may be one `a && b`, nested ifs, or an earlier `if outside { continue }`
         cj = A.path_conjuncts(body, s) or set()
+        # `render_config.width()` is `render_config.image_size.width()` when the RenderSize impl says so
+        try:
+            deleg = all(str(txt(A.find_fn(path, n_, self_ty="RenderConfig", trait="RenderSize", root=fn.get("_root"))["body"])) == "{self.image_size.%s()}" % n_ for n_ in ("width", "height"))
+        except Exception:  # noqa: BLE001
+            deleg = False
+        if deleg:
+            cj = {c_.replace("render_config.width()", "render_config.image_size.width()").replace("render_config.height()", "render_config.image_size.height()") for c_ in cj}
         if "(%s<%s)" % (y, H) not in cj or "(%s<%s)" % (x, W) not in cj:
             okc = False
             rule.bad("assembly|%s|writes guarded by the imag" % label, "%s image assembly: `%s` is not guarded by both `y < height` and `x < width` (y = j + corner.y, x = i + corner.x, width / height from the image size); guards seen: %s" % (label, A.unparse(e)[:40], sorted(cj)), A.where(fn))
@@ -495,7 +512,11 @@ def r_assembly_pixel(rule, root=None):
             rule.bad("assembly|pixel|source", "2D image assembly must copy `data[index]`", A.where(fn))
     t = txt(fn["body"])
     f = "letmax_size=(render_config.width().max(render_config.height())asusize);"
-    if f in t:
+    from . import effects as E
+
+    ml = [l_ for l_ in fn["body"]["stmts"] if l_.get("k") == "Let" and A.binding_name(l_["pat"]) == "max_size" and l_.get("init") is not None]
+    mcanon = E.canon(ml[0]["init"], E.let_env(fn["body"]["stmts"][:fn["body"]["stmts"].index(ml[0])])) if len(ml) == 1 else ""
+    if f in t or mcanon in ("render_config.width().max(render_config.height())", "render_config.height().max(render_config.width())"):
         rule.ok("pixel assembly: largest dimension bounds the tile list", file=PIX, line=fn["ln"])
     else:
         rule.bad("assembly|pixel|largest dimension bounds", "2D image assembly: largest dimension bounds the tile list (`%s` not found)" % f[:60], A.where(fn))
@@ -952,17 +973,24 @@ def r_effect_siblings(rule, root=None):
         rule.lost("par_chunks_mut / chunks_mut in Image::apply_effect")
         return
     a, b = txt(par[0]["args"][0]), txt(ser[0]["args"][0])
-    if a == b == "(self.size.width()asusize)":
+    from . import effects as E
+
+    ca = E.canon(par[0]["args"][0], E.env_at(fn["body"], par[0]))
+    cb = E.canon(ser[0]["args"][0], E.env_at(fn["body"], ser[0]))
+    if a == b == "(self.size.width()asusize)" or ca == cb == "self.size.width()":
         rule.ok("apply_effect: both branches process rows of `width` pixels", file=LIB, line=fn["ln"])
     else:
         rule.bad("effect|chunks", "apply_effect chunks rows by `%s` with a pool and by `%s` without: the two must agree (and be the image width)" % (a, b), A.where(fn, ser[0]))
     tp = txt(ifs[0]["then"]).replace("par_chunks_mut", "chunks_mut")
     te = txt(ifs[0]["else"])
-    if ".enumerate().for_each(r)" in tp and ".enumerate().for_each(r)" in te:
+    mp = re.search(r"\.enumerate\(\)\.for_each\((\w+)\)", str(tp))
+    me = re.search(r"\.enumerate\(\)\.for_each\((\w+)\)", str(te))
+    rname = mp.group(1) if mp and me and mp.group(1) == me.group(1) else None
+    if rname:
         rule.ok("apply_effect: both branches feed (row index, row) to the same closure")
     else:
         rule.bad("effect|closure", "both branches of apply_effect must feed enumerate()d rows to the same closure", A.where(fn))
-    if "letr=|(y,row):(usize,&mut[P])|{for(x,v)inrow.iter_mut().enumerate(){*v=f(x,y);}};" in txt(fn["body"]):
+    if ("let%s=|(y,row):(usize,&mut[P])|{for(x,v)inrow.iter_mut().enumerate(){*v=f(x,y);}};" % (rname or "r")) in txt(fn["body"]):
         rule.ok("apply_effect: pixel (x, y) receives f(x, y)")
     else:
         rule.bad("effect|xy", "apply_effect must store f(x, y) at column x of row y", A.where(fn))
